@@ -23,17 +23,21 @@ class RmwProbe(e2.Probe):
     cut_loops = True
     max_visits = 3          # up to 2 failed compare-exchange rounds (interfering updates) per operation
 
-    def __init__(self, key, fn, t, vt, expr, f, result, storage="static", pre=""):
-        """f(observed, v) -> (new value, defined); result: 'new' | 'old' """
+    def __init__(self, key, fn, t, vt, expr, f, result, storage="static", pre="", wide=None):
+        """f(observed, v) -> (new value, defined); result: 'new' | 'old'; wide: the function returns the result converted to this
+        wider integer type (checks the register representation of a narrow result); floating t/vt: values travel in %xmm0"""
         self.key, self.fn, self.family = key, fn, key.split("/")[0]
         self.t, self.vt, self.f, self.result, self.storage = t, vt, f, result, storage
+        self.wide = wide
+        self.fp = cref.is_fp(t)
         cell = "cell_%s" % fn
+        rt = wide.name if wide else t.name
         if storage == "static":
-            self.csrc = "%s\n_Atomic(%s) %s;\n%s %s(%s v) { return %s; }\n" % (pre, t.name, cell, t.name, fn, vt.name if vt else "int", expr.replace("CELL", cell))
-            self.vreg = "rdi"
+            self.csrc = "%s\n_Atomic(%s) %s;\n%s %s(%s v) { return %s; }\n" % (pre, t.name, cell, rt, fn, vt.name if vt else "int", expr.replace("CELL", cell))
+            self.vreg = "xmm0" if (vt is not None and cref.is_fp(vt)) else "rdi"
         else:
-            self.csrc = "%s\n%s %s(_Atomic(%s) *p, %s v) { return %s; }\n" % (pre, t.name, fn, t.name, vt.name if vt else "int", expr.replace("CELL", "(*p)"))
-            self.vreg = "rsi"
+            self.csrc = "%s\n%s %s(_Atomic(%s) *p, %s v) { return %s; }\n" % (pre, rt, fn, t.name, vt.name if vt else "int", expr.replace("CELL", "(*p)"))
+            self.vreg = "xmm0" if (vt is not None and cref.is_fp(vt)) else "rsi"
         self.volatile = [cell]
         self.cell = cell
 
@@ -78,13 +82,22 @@ class RmwProbe(e2.Probe):
             if last.op == "cmpxchg":
                 out.append(e2.Goal("lastsucceeds/p%d" % pi, H, last.success, note="operation returned although its compare-exchange failed"))
             obs = last.observed
-            newv, defined = self.f(obs, v)
+            # floating operations: on a successful compare-exchange observed == expected (path condition); writing the reference
+            # over the compare value keeps the terms syntactically those of the emitted code (z3's FP theory is slow on an
+            # equation that needs the equality substituted under a floating-point operator)
+            fobs = last.expected if (self.fp and last.op == "cmpxchg") else obs
+            newv, defined = self.f(fobs, v)
             Hd = H + [defined]
             out.append(e2.Goal("linearization/p%d" % pi, Hd, last.new == newv, {"observed": obs, "v": v if v is not None else bv(0, 8)},
                                note="the value written by the atomic step is not f(value observed by that same step)"))
             rax = s.regs["rax"]
             got = z3.Extract(t.bits - 1, 0, rax) if t.bits < 64 else rax
             want = newv if self.result == "new" else obs
+            if self.fp:
+                got = z3.Extract(t.bits - 1, 0, s.xmm[0]) if t.bits < 64 else s.xmm[0]
+            if self.wide is not None:
+                got = z3.Extract(self.wide.bits - 1, 0, rax) if self.wide.bits < 64 else rax
+                want = conv(want, t, self.wide)
             out.append(e2.Goal("result/p%d" % pi, Hd, got == want, note="returned value is not the %s value of the atomic step" % self.result))
             out.append(e2.Goal("frame/p%d" % pi, H, z3.And(s.regs["rsp"] == M.RSP0 + bv(8), s.regs["rbp"] == z3.BitVec("in_rbp", 64))))
         if completed == 0:
@@ -92,6 +105,11 @@ class RmwProbe(e2.Probe):
         return out
 
     def runtime_replay(self):
+        if self.fp or self.wide is not None:
+            return None
+        return self._runtime_replay()
+
+    def _runtime_replay(self):
         """driver (gcc, pthreads): one call with known values checks the returned and the stored value; for
         additive operations four threads then hammer the operation and the total must not lose updates."""
         t = self.t
@@ -262,6 +280,30 @@ def mk_probes(tier, only=None):
             P.append(CasProbe("cas/strong/%s" % t.cid, fn(), t))
             P.append(CasProbe("cas/weak/%s" % t.cid, fn(), t, weak=True))
             P.append(CasProbe("cas/desired-from-call/%s" % t.cid, fn(), t, callarg=True))
+    if want("xchg"):
+        # the old value returned by atomic_exchange on a narrow object, used at a wider type (register representation)
+        for t in [CHAR, UCHAR, SHORT, USHORT, INT, UINT, BOOL]:
+            for wide in (INT, LONG):
+                if wide.bits <= t.bits:
+                    continue
+                P.append(RmwProbe("xchg/widened-result/%s/%s" % (t.cid, wide.cid), fn(), t, LONG, "atomic_exchange(&CELL, v)",
+                                  (lambda t: lambda obs, v: (conv(v, LONG, t), TRUE))(t), "old", "static", pre=HDR, wide=wide))
+    if want("fp"):
+        # _Atomic float / double: op= and ++ are compare-exchange loops on the bit pattern
+        import c02
+        RNE = z3.RNE()
+        for t in (cref.DOUBLE, cref.FLOAT):
+            for op, fop, nm in (("+", z3.fpAdd, "add"), ("-", z3.fpSub, "sub"), ("*", z3.fpMul, "mul")):
+                def f(obs, v, t=t, fop=fop):
+                    r = fop(RNE, asmx.bv2fp(obs, t.sort), asmx.bv2fp(v, t.sort))
+                    return asmx.fp2bv(r), z3.Not(z3.fpIsNaN(r))
+                for storage in ("static", "pointer"):
+                    p = RmwProbe("fp/opassign/%s/%s/%s" % (storage, nm, t.cid), fn(), t, t, "CELL %s= v" % op, f, "new", storage)
+                    p.timeout_ms = 120000
+                    P.append(p)
+            def fx(obs, v, t=t):
+                return v, TRUE
+            P.append(RmwProbe("fp/exchange/%s" % t.cid, fn(), t, t, "atomic_exchange(&CELL, v)", fx, "old", "static", pre=HDR))
     if want("member"):
         # an _Atomic member of a struct
         for t in [INT, LONG, UCHAR]:
@@ -284,12 +326,13 @@ def main(tier, only=None):
     chk = vf.Check("C16", tier)
     probes = mk_probes(tier, only)
     chk.bounds += ["widths 1,2,4,8 (8 integer types) x all ten op= operators x operand types (%s), ++/-- (4 forms), atomic_fetch_{add,sub,or,xor,and}, atomic_exchange, "
-                   "atomic_compare_exchange_{strong,weak}; objects in static storage and behind a pointer; _Atomic struct members" % ("all 8" if tier == "thorough" else "same type and int/long"),
+                   "atomic_compare_exchange_{strong,weak} (also with the desired value computed by a 5-argument call); objects in static storage and behind a pointer; _Atomic struct members; "
+                   "_Atomic float/double with += -= *= and atomic_exchange; the old value returned by atomic_exchange on narrow objects used at a wider type" % ("all 8" if tier == "thorough" else "same type and int/long"),
                    "interference: ARBITRARY (every read of the shared cell is a fresh symbolic value), i.e. any number of other threads; "
                    "up to 2 failed compare-exchange rounds per operation are unrolled, longer paths are cut and checked to have written nothing",
                    "values: all"]
     chk.outside += ["x86-TSO store buffering (all writers of the cell in these sequences are locked instructions)", "memory-order strength of plain atomic_load/atomic_store",
-                    "_Atomic objects in automatic storage (same code path: gen_addr differs only in the lea), _Atomic floating and aggregate types",
+                    "_Atomic objects in automatic storage (same code path: gen_addr differs only in the lea), _Atomic long double (rejected with a diagnostic) and aggregate types, NaN results of floating op=",
                     "progress/termination of the retry loop under unbounded interference"]
     chk.assumptions += ["other threads change the cell only through atomic steps; each step of the code under test is an x86 instruction; "
                         "a lock-prefixed cmpxchg / an xchg with a memory operand is one indivisible step"]
